@@ -632,3 +632,61 @@ void h_poolapi(void) {
     VACUITY_END();
 }
 #endif
+
+#ifdef EMPTYBLOCK
+/* MemoryPool::getEmptyBlock: when the thread's slab cache is empty, `num` slabs are taken from the backend and each needs a back reference (default pool).  If the i-th back reference
+   cannot be obtained (the back-reference table cannot grow: memory refused), everything taken so far is given back - exactly the back references obtained for slabs 0..i-1, and all
+   num slabs - and the call fails cleanly with nullptr. */
+typedef struct BackRefIdx { uint32_t main; uint16_t largeObj_offset; } BackRefIdx;
+#define BRI_INVALID_MAIN 0xFFFFFFFFu
+static bool BRI_isInvalid(BackRefIdx x) { return x.main == BRI_INVALID_MAIN; }
+static BackRefIdx BRI_invalid(void) { BackRefIdx x; x.main = BRI_INVALID_MAIN; x.largeObj_offset = 0; return x; }
+typedef struct TLSData { int d; } TLSData;
+struct MemoryPool { bool user_pool; };
+typedef struct Block { BackRefIdx backRefIdx; TLSData *tlsPtr; struct MemoryPool *poolPtr; } Block;
+struct ResOfGet { Block *block; bool lastAccMiss; };
+static struct ResOfGet RESOFGET(Block *b, bool m) { struct ResOfGet r; r.block = b; r.lastAccMiss = m; return r; }
+#define slabSize sizeof(Block)     /* the slabs of one refill are adjacent cells; in the harness a cell is just its header */
+static TLSData TLS; static Block CACHED; static Block SLABS[numOfSlabAllocOnMiss + 1];
+bool g_have_tls, g_cache_hit, g_cache_miss_flag, g_backend_fails; int g_fail_at, g_news, g_removed[numOfSlabAllocOnMiss], g_removed_other, g_put[numOfSlabAllocOnMiss], g_put_other, g_set[numOfSlabAllocOnMiss], g_returned[numOfSlabAllocOnMiss], g_inits, g_num; Block *g_init_block;
+static TLSData *STUB_getTLS(struct MemoryPool *p) { return g_have_tls ? &TLS : NULL; }
+static struct ResOfGet STUB_freeSlabBlocks_getBlock(TLSData *t) { return RESOFGET(g_cache_hit ? &CACHED : NULL, g_cache_miss_flag); }
+static Block *STUB_getSlabBlock(struct MemoryPool *p, int num) { g_num = num; return g_backend_fails ? NULL : (Block *)SLABS; }
+static bool STUB_userPool(struct MemoryPool *p) { return p->user_pool; }
+static BackRefIdx STUB_newBackRef(void) { BackRefIdx x; if (g_news == g_fail_at) { g_news++; return BRI_invalid(); } x.main = (uint32_t)(100 + g_news); x.largeObj_offset = 0; g_news++; return x; }
+static void STUB_removeBackRef(BackRefIdx x) { __CPROVER_assert(!BRI_isInvalid(x), "C18.refill: an invalid back reference is never removed (it indexes outside the back-reference table)");
+    if (x.main >= 100 && x.main < 100 + numOfSlabAllocOnMiss) g_removed[x.main - 100]++; else g_removed_other++; }
+static int slab_no(Block *b) { for (int k = 0; k < numOfSlabAllocOnMiss; ++k) if (b == &SLABS[k]) return k; return -1; }
+static void STUB_putSlabBlock(struct MemoryPool *p, Block *b) { int k = slab_no(b); if (k >= 0) g_put[k]++; else g_put_other++; }
+static void STUB_setBackRef(BackRefIdx x, Block *b) { int k = slab_no(b); __CPROVER_assert(k >= 0 && x.main == (uint32_t)(100 + k), "C18.refill: slab k is registered under the back reference obtained for it"); g_set[k]++; }
+static void STUB_returnBlock(TLSData *t, Block *b) { int k = slab_no(b); __CPROVER_assert(k >= 1, "C18.refill: only the surplus slabs go to the thread's slab cache"); g_returned[k]++; }
+static void STUB_initEmptyBlock(Block *b, TLSData *t, size_t size) { g_inits++; g_init_block = b; }
+#include "empty_block.inc"
+void h_empty_block(void) {
+    struct MemoryPool P; P.user_pool = nondet_bool(); g_have_tls = nondet_bool(); g_cache_hit = g_have_tls && nondet_bool(); g_cache_miss_flag = g_have_tls && nondet_bool(); g_backend_fails = nondet_bool();
+    g_fail_at = nondet_int(); __CPROVER_assume(g_fail_at >= -1 && g_fail_at < numOfSlabAllocOnMiss); g_news = 0; g_removed_other = g_put_other = g_inits = 0; g_num = 0;
+    for (int k = 0; k < numOfSlabAllocOnMiss; ++k) g_removed[k] = g_put[k] = g_set[k] = g_returned[k] = 0;
+    Block *r = MemoryPool_getEmptyBlock(&P, nondet_size_t());
+    if (g_cache_hit) { OBLIGATION(r == &CACHED && g_inits == 1 && g_num == 0, "C18.refill: a cached slab is used as is"); }
+    else if (g_backend_fails) { OBLIGATION(r == NULL && g_inits == 0 && g_news == 0, "C18.fail: a refused slab request is reported as nullptr and nothing else is touched"); }
+    else {
+        bool failed = !P.user_pool && g_fail_at >= 0 && g_fail_at < g_num;
+        OBLIGATION(g_num >= 1 && g_num <= numOfSlabAllocOnMiss && (g_num == 1 || g_have_tls), "C18.refill: several slabs are requested only when there is a thread cache to keep the surplus");
+        if (failed) {
+            OBLIGATION(r == NULL && g_inits == 0, "C18.fail: when a back reference cannot be obtained in the middle of a slab refill the call fails cleanly with nullptr");
+            for (int k = 0; k < numOfSlabAllocOnMiss; ++k) {
+                OBLIGATION(g_removed[k] == (k < g_fail_at ? 1 : 0), "C18.fail: the roll-back removes exactly the back references that were obtained for this refill, each once (none leaked, none removed twice)");
+                OBLIGATION(g_put[k] == (k < g_num ? 1 : 0) && g_set[k] == 0 && g_returned[k] == 0, "C18.fail: the roll-back gives every slab of the refill back to the backend exactly once and registers none");
+            }
+            OBLIGATION(g_removed_other == 0 && g_put_other == 0, "C18.fail: the roll-back touches nothing else");
+        } else {
+            OBLIGATION(r == (Block *)SLABS && g_inits == 1 && g_init_block == r, "C18.refill: the first slab is initialised and returned");
+            for (int k = 0; k < numOfSlabAllocOnMiss; ++k) {
+                OBLIGATION(g_set[k] == ((!P.user_pool && k < g_num) ? 1 : 0) && g_removed[k] == 0 && g_put[k] == 0, "C18.refill: every slab of a default pool is registered under its own back reference, exactly once");
+                OBLIGATION(g_returned[k] == ((k >= 1 && k < g_num) ? 1 : 0), "C18.refill: the surplus slabs go to the thread's slab cache, each once");
+            }
+        }
+    }
+    VACUITY_END();
+}
+#endif
